@@ -52,6 +52,8 @@ def _fits_val(spec, v):
         return all(hasattr(v, k) and _fits_val(vs, getattr(v, k)) for k, vs in spec[2].items())
     if isinstance(spec, str) and (spec.startswith("pred") or spec == "obj"):
         return True
+    if isinstance(spec, tuple) and spec and spec[0] == "obj":
+        return True
     return v == spec and type(v) is type(spec)
 
 
